@@ -12,7 +12,7 @@ try:
     if rc.returncode == 0:
         for i in range(1, 21):
             p = 'C%02d' % i
-            r = subprocess.run(['/verif/bin/wtcheck', '-property', p, '-repo', scratch, '-no-controls', '-evidence-dir', ev], capture_output=True, text=True, cwd='/verif')
+            r = subprocess.run([os.environ.get('WTCHECK', '/verif/bin/wtcheck'), '-property', p, '-repo', scratch, '-no-controls', '-evidence-dir', ev], capture_output=True, text=True, cwd='/verif')
             if r.returncode != 0:
                 out['alarms'][p] = [l[:400] for l in r.stdout.splitlines() if re.search(r'VIOLATED|UNDECIDED|panic', l)][:6]
     print(json.dumps(out))
